@@ -203,6 +203,10 @@ func Power(ctx *expr.Context, input system.Collection, args ...expr.Expression) 
 	if err != nil {
 		return nil, err
 	}
+	// An empty exponent propagates
+	if argValues.IsEmpty() {
+		return system.Collection{}, nil
+	}
 	// Validating integers case
 	_, ok := input[0].(system.Integer)
 	_, ok2 := argValues[0].(system.Integer)
@@ -217,8 +221,11 @@ func Power(ctx *expr.Context, input system.Collection, args ...expr.Expression) 
 		if err != nil {
 			return nil, err
 		}
-		// Powering ints
-		res := powInt32(number, exp)
+		// Powering ints: a result that does not fit an Integer is empty
+		res, ok := powInt32(number, exp)
+		if !ok {
+			return system.Collection{}, nil
+		}
 		return system.Collection{system.Integer(res)}, nil
 	}
 	// Input type conversion to float64
@@ -341,20 +348,35 @@ func logToBase(number, base float64) float64 {
 	return math.Log(number) / math.Log(base)
 }
 
-// powInt32 returns the powering of a number to a given exponential.
-func powInt32(base, exp int32) int32 {
+// powInt32 returns the powering of a number to a given exponential, and false
+// if the result does not fit an int32.
+func powInt32(base, exp int32) (int32, bool) {
 	if exp == 0 {
-		return 1
+		return 1, true
 	}
 	if exp < 0 {
-		return 0
+		return 0, true
+	}
+	// Bases of magnitude at most one never overflow; every other base overflows
+	// within 31 multiplications, so the loop below is short.
+	switch base {
+	case 0, 1:
+		return base, true
+	case -1:
+		if exp%2 == 0 {
+			return 1, true
+		}
+		return -1, true
 	}
 
-	result := base
+	result := int64(base)
 	for i := int32(2); i <= exp; i++ {
-		result *= base
+		result *= int64(base)
+		if result > math.MaxInt32 || result < math.MinInt32 {
+			return 0, false
+		}
 	}
-	return result
+	return int32(result), true
 }
 
 // toDecimal converts a singleton collection holding a Decimal or an integer
